@@ -218,7 +218,7 @@ def match_known(prop, key, known):
 
 
 # ----------------------------------------------------------------------------- monitor arm
-def run_monitor(prop, tier, seed, cfgs, extra_args=()):
+def run_monitor(prop, tier, seed, cfgs, extra_args=(), env_add=None):
     exe = build_monitor()
     paths = build_configs(cfgs)
     rundir = os.path.join(CACHE, 'run')
@@ -232,7 +232,7 @@ def run_monitor(prop, tier, seed, cfgs, extra_args=()):
     watchdog = int(os.environ.get('VERIF_WATCHDOG_S', '900' if tier == 'quick' else '14400'))
     for attempt in (1, 2):
         try:
-            r = subprocess.run(cmd, capture_output=True, text=True, timeout=watchdog)
+            r = subprocess.run(cmd, capture_output=True, text=True, timeout=watchdog, env=dict(os.environ, **(env_add or {})))
         except subprocess.TimeoutExpired:
             if attempt == 2:
                 raise Inconclusive(f'monitor watchdog ({watchdog}s) fired twice')
@@ -314,7 +314,7 @@ def finish(prop, tier, seed, t0, arms, violations, extra_cov, status_notes, inco
 def monitor_cov(res):
     cov = {
         'evaluations': res['evaluations'], 'cases': res['cases'], 'distinct_nontrivial': res['distinct_nontrivial'],
-        'rule': res['nontrivial_rule'] + ' | counted as distinct 64-bit hashes of the input tuple, capped at 2^21 per worker thread '
+        'rule': res['nontrivial_rule'] + ' | counted as distinct 64-bit hashes of the input tuple, capped per worker thread (2^17 quick, 2^21 thorough) '
                 f"({res['nontrivial_uncounted']} further non-trivial cases arrived after the cap and are not counted)",
         'samples': res['samples'], 'strata': res['strata'], 'per_check': res['per_check'], 'check_docs': res['checks'],
         'configurations': res['configs'], 'maxima': res['maxima'], 'signals_caught': res['signals'],
@@ -331,7 +331,8 @@ def check_property(prop, tier, seed):
     violations = []
     arms_used = ['value-monitor']
     cfgs = configs_for(prop, tier)
-    res = run_monitor(prop, tier, seed, cfgs)
+    env_add = A.pre_monitor_env(prop, tier)
+    res = run_monitor(prop, tier, seed, cfgs, env_add=env_add)
     cov = monitor_cov(res)
     for v in res['violations']:
         v['arm'] = 'monitor'
@@ -340,7 +341,7 @@ def check_property(prop, tier, seed):
         inconcl.append('strata not reached: ' + ', '.join(res['missing_strata']))
     if res['evaluations'] == 0:
         inconcl.append('monitor observed no calls')
-    A.extra_arms(prop, tier, seed, cov, violations, inconcl, notes, arms_used)
+    A.extra_arms(prop, tier, seed, cov, violations, inconcl, notes, arms_used, env_add)
     return finish(prop, tier, seed, t0, arms_used, violations, cov, notes, inconcl)
 
 
@@ -395,4 +396,7 @@ def main():
 
 
 if __name__ == '__main__':
-    sys.exit(main())
+    # run as the module 'vcheck' so that harness/arms.py shares this module's state and exception classes
+    sys.path.insert(0, VERIF)
+    import vcheck
+    sys.exit(vcheck.main())
